@@ -19,6 +19,7 @@ import (
 const modulePath = "github.com/sassoftware/relic/v8"
 
 type Checker struct {
+	specDup error // a spec function / macro name defined twice
 	fieldRanges map[string][2]string // heap array name -> assumed [lo, hi] of a counter field (externs.spec `fieldrange`)
 	anyHomeCache map[string][]anyHome
 	repo      string
@@ -97,7 +98,7 @@ func (ck *Checker) loadSpecs() error {
 		}
 		ck.addSpecFile(sf)
 	}
-	return nil
+	return ck.specDup
 }
 
 func (ck *Checker) addSpecFile(sf *SpecFile) {
@@ -111,7 +112,7 @@ func (ck *Checker) addSpecFile(sf *SpecFile) {
 	}
 	for _, s := range sf.SpecFuncs {
 		if old, ok := ck.specFuncs[s.Name]; ok {
-			fmt.Fprintf(os.Stderr, "warning: spec function %s redefined (%s:%d and %s:%d)\n", s.Name, old.File, old.Line, s.File, s.Line)
+			ck.specDup = fmt.Errorf("spec function or macro %s defined twice (%s:%d and %s:%d): names are global", s.Name, old.File, old.Line, s.File, s.Line)
 		}
 		ck.specFuncs[s.Name] = s
 	}
